@@ -688,6 +688,8 @@ Definition table_add (id size a : Z) (data : list Z) : M Z :=
   if negb (nthz vs id =? 0) then ret 0 else
   o <- get ds_offset ;;
   let off := alignup o a in
+  (* the table size in the vtable includes the vtable offset field and must fit a voffset, as must every field position *)
+  if (TABLE_LIMIT <=? size) || (TABLE_LIMIT - size <=? off) then ret 0 else
   let o' := u32 (off + size) in
   upd (set_ds_offset o') ;;;
   ok <- ensure_ds false o' (o' + 1) TABLE_LIMIT ;;
@@ -705,6 +707,7 @@ Definition table_add_offset (id ref : Z) : M Z :=
   if negb (nthz vs id =? 0) then ret 0 else
   o <- get ds_offset ;;
   let off := alignup o FIELD_SIZE in
+  if TABLE_LIMIT - FIELD_SIZE <=? off then ret 0 else
   let o' := u32 (off + FIELD_SIZE) in
   upd (set_ds_offset o') ;;;
   ok <- ensure_ds true o' o' TABLE_LIMIT ;;
